@@ -978,8 +978,16 @@ def load_module(source: str, workdir: str, tag: str = 'm'):
     return mod
 
 
-def unload(mod):
+_unloads = 0
+
+
+def unload(mod, keep_caches: bool = False):
+    global _unloads
     sys.modules.pop(mod.__name__, None)
+    _unloads += 1
+    # every 25 programs: see drop_caches (C18, which studies process-wide state, keeps them)
+    if not keep_caches and _unloads % 25 == 0:
+        drop_caches()
 
 
 def drop_caches():
